@@ -174,6 +174,9 @@ template<typename T, typename EntityTag>
 std::optional<PropertyPtr<T, EntityTag>>
 ResourceManager::create_persistent_property(std::string _name, const T &_def)
 {
+    if (_name.empty()) {
+        throw std::runtime_error("Shared properties must have a name!");
+    }
     auto prop = internal_find_property<T, EntityTag>(_name);
     if (prop)
         return {};
@@ -186,6 +189,9 @@ template<typename T, typename EntityTag>
 std::optional<PropertyPtr<T, EntityTag>>
 ResourceManager::create_shared_property(std::string _name, const T &_def)
 {
+    if (_name.empty()) {
+        throw std::runtime_error("Shared properties must have a name!");
+    }
     auto prop = internal_find_property<T, EntityTag>(_name);
     if (prop)
         return {};
